@@ -17,6 +17,7 @@ EXPLANATION = (
     "exactly those values to the density estimator; get_interval returns a 2-D array of stored rows paired with their own "
     "log-probabilities, every returned log-probability >= every discarded one, all rows of the requested top fraction when "
     "no count is given and at most the requested count otherwise."
+    ' State-following unit: read-outs before and after replace_last and after the chain has grown always reflect the state at the time of the call.'
 )
 BOUNDS = {"quick": "chains of 1..4 stored points, d<=2, burn 0..5, thin 1..3, requested count 1..3",
           "thorough": "chains of 5 stored points, burn 0..6, requested count 1..4"}
